@@ -144,9 +144,10 @@ Record state := {
   s_committed : N; s_calh : bytes;
   s_inmem : N; s_ialh : bytes;
   s_ptls : N;                      (* precommittedTxLogSize *)
-  s_tlfo : N;                      (* txLog: offset up to which appended bytes have reached the file
-                                      (Flush in sync(), Close); bytes beyond it sit in the write buffer
-                                      and are dropped by a SetOffset below them *)
+  s_tlnf : N;                      (* txLog: how many of the newest writes are still in the write buffer
+                                      (not flushed yet: Flush happens in sync() and Close); those among
+                                      them that lie at or beyond the offset of a SetOffset are dropped by
+                                      it, what has reached the file stays there until overwritten *)
   s_buf : pbuf;                    (* cLogBuf *)
   s_ext : bool; s_allowed : N;     (* useExternalCommitAllowance, commitAllowedUpToTxID *)
   s_whub : N;                      (* inmemPrecommitWHub.doneUpto *)
@@ -211,53 +212,53 @@ Definition aht_root_tolerant (aht : list bytes) (n : N) : res bytes :=
 (* ---- initial state: store.Open on an empty directory ---- *)
 Definition init (c : cfg) : state :=
   {| s_cfg := c; s_txlog := []; s_clog := []; s_vlog := []; s_vsize := 0; s_aht := [];
-     s_committed := 0; s_calh := H []; s_inmem := 0; s_ialh := H []; s_ptls := 0; s_tlfo := 0;
+     s_committed := 0; s_calh := H []; s_inmem := 0; s_ialh := H []; s_ptls := 0; s_tlnf := 0;
      s_buf := pb_new (c_maxactive c); s_ext := c_ext0 c; s_allowed := 0; s_whub := 0; s_pend := []; s_wait := [] |}.
 
 Definition upd_pend (s : state) (p : list (N * prepared)) : state :=
   {| s_cfg := s_cfg s; s_txlog := s_txlog s; s_clog := s_clog s; s_vlog := s_vlog s; s_vsize := s_vsize s;
      s_aht := s_aht s; s_committed := s_committed s; s_calh := s_calh s; s_inmem := s_inmem s;
-     s_ialh := s_ialh s; s_ptls := s_ptls s; s_tlfo := s_tlfo s; s_buf := s_buf s; s_ext := s_ext s; s_allowed := s_allowed s;
+     s_ialh := s_ialh s; s_ptls := s_ptls s; s_tlnf := s_tlnf s; s_buf := s_buf s; s_ext := s_ext s; s_allowed := s_allowed s;
      s_whub := s_whub s; s_pend := p; s_wait := s_wait s |}.
 Definition upd_vlog (s : state) (v : list (N * bytes)) (sz : N) : state :=
   {| s_cfg := s_cfg s; s_txlog := s_txlog s; s_clog := s_clog s; s_vlog := v; s_vsize := sz;
      s_aht := s_aht s; s_committed := s_committed s; s_calh := s_calh s; s_inmem := s_inmem s;
-     s_ialh := s_ialh s; s_ptls := s_ptls s; s_tlfo := s_tlfo s; s_buf := s_buf s; s_ext := s_ext s; s_allowed := s_allowed s;
+     s_ialh := s_ialh s; s_ptls := s_ptls s; s_tlnf := s_tlnf s; s_buf := s_buf s; s_ext := s_ext s; s_allowed := s_allowed s;
      s_whub := s_whub s; s_pend := s_pend s; s_wait := s_wait s |}.
 Definition upd_aht (s : state) (a : list bytes) : state :=
   {| s_cfg := s_cfg s; s_txlog := s_txlog s; s_clog := s_clog s; s_vlog := s_vlog s; s_vsize := s_vsize s;
      s_aht := a; s_committed := s_committed s; s_calh := s_calh s; s_inmem := s_inmem s;
-     s_ialh := s_ialh s; s_ptls := s_ptls s; s_tlfo := s_tlfo s; s_buf := s_buf s; s_ext := s_ext s; s_allowed := s_allowed s;
+     s_ialh := s_ialh s; s_ptls := s_ptls s; s_tlnf := s_tlnf s; s_buf := s_buf s; s_ext := s_ext s; s_allowed := s_allowed s;
      s_whub := s_whub s; s_pend := s_pend s; s_wait := s_wait s |}.
 Definition upd_txlog (s : state) (t : list wr) : state :=
   {| s_cfg := s_cfg s; s_txlog := t; s_clog := s_clog s; s_vlog := s_vlog s; s_vsize := s_vsize s;
      s_aht := s_aht s; s_committed := s_committed s; s_calh := s_calh s; s_inmem := s_inmem s;
-     s_ialh := s_ialh s; s_ptls := s_ptls s; s_tlfo := s_tlfo s; s_buf := s_buf s; s_ext := s_ext s; s_allowed := s_allowed s;
+     s_ialh := s_ialh s; s_ptls := s_ptls s; s_tlnf := s_tlnf s; s_buf := s_buf s; s_ext := s_ext s; s_allowed := s_allowed s;
      s_whub := s_whub s; s_pend := s_pend s; s_wait := s_wait s |}.
 Definition upd_clog (s : state) (c : list centry) : state :=
   {| s_cfg := s_cfg s; s_txlog := s_txlog s; s_clog := c; s_vlog := s_vlog s; s_vsize := s_vsize s;
      s_aht := s_aht s; s_committed := s_committed s; s_calh := s_calh s; s_inmem := s_inmem s;
-     s_ialh := s_ialh s; s_ptls := s_ptls s; s_tlfo := s_tlfo s; s_buf := s_buf s; s_ext := s_ext s; s_allowed := s_allowed s;
+     s_ialh := s_ialh s; s_ptls := s_ptls s; s_tlnf := s_tlnf s; s_buf := s_buf s; s_ext := s_ext s; s_allowed := s_allowed s;
      s_whub := s_whub s; s_pend := s_pend s; s_wait := s_wait s |}.
 Definition upd_buf (s : state) (b : pbuf) : state :=
   {| s_cfg := s_cfg s; s_txlog := s_txlog s; s_clog := s_clog s; s_vlog := s_vlog s; s_vsize := s_vsize s;
      s_aht := s_aht s; s_committed := s_committed s; s_calh := s_calh s; s_inmem := s_inmem s;
-     s_ialh := s_ialh s; s_ptls := s_ptls s; s_tlfo := s_tlfo s; s_buf := b; s_ext := s_ext s; s_allowed := s_allowed s;
+     s_ialh := s_ialh s; s_ptls := s_ptls s; s_tlnf := s_tlnf s; s_buf := b; s_ext := s_ext s; s_allowed := s_allowed s;
      s_whub := s_whub s; s_pend := s_pend s; s_wait := s_wait s |}.
 Definition upd_committed (s : state) (id : N) (alh : bytes) : state :=
   {| s_cfg := s_cfg s; s_txlog := s_txlog s; s_clog := s_clog s; s_vlog := s_vlog s; s_vsize := s_vsize s;
      s_aht := s_aht s; s_committed := id; s_calh := alh; s_inmem := s_inmem s;
-     s_ialh := s_ialh s; s_ptls := s_ptls s; s_tlfo := s_tlfo s; s_buf := s_buf s; s_ext := s_ext s; s_allowed := s_allowed s;
+     s_ialh := s_ialh s; s_ptls := s_ptls s; s_tlnf := s_tlnf s; s_buf := s_buf s; s_ext := s_ext s; s_allowed := s_allowed s;
      s_whub := s_whub s; s_pend := s_pend s; s_wait := s_wait s |}.
 Definition upd_inmem (s : state) (id : N) (alh : bytes) : state :=
   {| s_cfg := s_cfg s; s_txlog := s_txlog s; s_clog := s_clog s; s_vlog := s_vlog s; s_vsize := s_vsize s;
      s_aht := s_aht s; s_committed := s_committed s; s_calh := s_calh s; s_inmem := id;
-     s_ialh := alh; s_ptls := s_ptls s; s_tlfo := s_tlfo s; s_buf := s_buf s; s_ext := s_ext s; s_allowed := s_allowed s;
+     s_ialh := alh; s_ptls := s_ptls s; s_tlnf := s_tlnf s; s_buf := s_buf s; s_ext := s_ext s; s_allowed := s_allowed s;
      s_whub := s_whub s; s_pend := s_pend s; s_wait := s_wait s |}.
 Definition upd_allow (s : state) (ext : bool) (allowed : N) : state :=
   {| s_cfg := s_cfg s; s_txlog := s_txlog s; s_clog := s_clog s; s_vlog := s_vlog s; s_vsize := s_vsize s;
      s_aht := s_aht s; s_committed := s_committed s; s_calh := s_calh s; s_inmem := s_inmem s;
-     s_ialh := s_ialh s; s_ptls := s_ptls s; s_tlfo := s_tlfo s; s_buf := s_buf s; s_ext := ext; s_allowed := allowed;
+     s_ialh := s_ialh s; s_ptls := s_ptls s; s_tlnf := s_tlnf s; s_buf := s_buf s; s_ext := ext; s_allowed := allowed;
      s_whub := s_whub s; s_pend := s_pend s; s_wait := s_wait s |}.
 
 (* ---- reads ------------------------------------------------------------------------------ *)
@@ -418,21 +419,22 @@ Definition begin (s : state) (c : N) (p : txspec) (exp : option txhdr) (skipic :
     end
   end.
 
-(* physical end of what has been appended to the tx log *)
-Definition tl_max (log : list wr) : N := fold_right (fun w m => N.max (w_end w) m) 0 log.
-Definition upd_tl (s : state) (t : list wr) (fo : N) : state :=
+Definition upd_tl (s : state) (t : list wr) (nf : N) : state :=
   {| s_cfg := s_cfg s; s_txlog := t; s_clog := s_clog s; s_vlog := s_vlog s; s_vsize := s_vsize s;
      s_aht := s_aht s; s_committed := s_committed s; s_calh := s_calh s; s_inmem := s_inmem s;
-     s_ialh := s_ialh s; s_ptls := s_ptls s; s_tlfo := fo; s_buf := s_buf s; s_ext := s_ext s;
+     s_ialh := s_ialh s; s_ptls := s_ptls s; s_tlnf := nf; s_buf := s_buf s; s_ext := s_ext s;
      s_allowed := s_allowed s; s_whub := s_whub s; s_pend := s_pend s; s_wait := s_wait s |}.
 (* txLog.SetOffset(precommittedTxLogSize): whatever was appended at or beyond that offset and is still
    in the write buffer (the bytes of an attempt that failed after its append) is dropped; what had
    reached the file stays there until overwritten *)
 Definition tl_set_offset (s : state) : state :=
-  upd_tl s (filter (fun w => negb ((s_ptls s <=? w_off w) && (s_tlfo s <=? w_off w))) (s_txlog s))
-         (N.min (s_tlfo s) (s_ptls s)).
+  let k := N.to_nat (s_tlnf s) in
+  let kept := filter (fun w => negb (s_ptls s <=? w_off w)) (firstn k (s_txlog s)) in
+  upd_tl s (kept ++ skipn k (s_txlog s)) (lenN kept).
 (* txLog.Flush() *)
-Definition tl_flush (s : state) : state := upd_tl s (s_txlog s) (N.max (s_tlfo s) (tl_max (s_txlog s))).
+Definition tl_flush (s : state) : state := upd_tl s (s_txlog s) 0.
+(* txLog.Append *)
+Definition tl_append (s : state) (w : wr) : state := upd_tl s (w :: s_txlog s) (s_tlnf s + 1).
 
 (* ---- mayCommit / the commit part of sync() --------------------------------------------- *)
 Definition commit_allowed_upto (s : state) : N := if s_ext s then s_allowed s else s_inmem s.
@@ -541,7 +543,7 @@ Definition locked (s : state) (c : N) (stale : bytes) : state * out :=
         | Ok alh =>
           let w := {| w_off := s_ptls s; w_pre := pre;
                       w_rec := {| r_hdr := hdr; r_entries := es; r_alh := alh |} |} in
-          let s1 := upd_txlog s (w :: s_txlog s) in          (* txLog.SetOffset + Append *)
+          let s1 := tl_append s w in          (* txLog.Append *)
           match aht_reset (s_aht s1) (s_inmem s1) with
           | Err e => (s1, Err e) | Panic => (s1, Panic)
           | Ok a0 =>
@@ -555,7 +557,7 @@ Definition locked (s : state) (c : N) (stale : bytes) : state * out :=
                 {| s_cfg := s_cfg s3; s_txlog := s_txlog s3; s_clog := s_clog s3; s_vlog := s_vlog s3;
                    s_vsize := s_vsize s3; s_aht := s_aht s3; s_committed := s_committed s3;
                    s_calh := s_calh s3; s_inmem := id; s_ialh := alh;
-                   s_ptls := s_ptls s3 + len pre + rec_size (w_rec w); s_tlfo := s_tlfo s3; s_buf := s_buf s3;
+                   s_ptls := s_ptls s3 + len pre + rec_size (w_rec w); s_tlnf := s_tlnf s3; s_buf := s_buf s3;
                    s_ext := s_ext s3; s_allowed := s_allowed s3;
                    s_whub := N.max (s_whub s3) id; s_pend := s_pend s3;
                    (* commit(): commitWHub.WaitFor(hdr.ID); ReplicateTx under external allowance returns
@@ -687,7 +689,7 @@ Definition reopen (s : state) : state * out :=
       let s1 :=
         {| s_cfg := cf; s_txlog := s_txlog s; s_clog := s_clog s; s_vlog := s_vlog s; s_vsize := s_vsize s;
            s_aht := s_aht s; s_committed := committed; s_calh := calh; s_inmem := pid; s_ialh := palh;
-           s_ptls := ptls; s_tlfo := tl_max (s_txlog s); s_buf := b; s_ext := c_ext0 cf; s_allowed := committed; s_whub := pid;
+           s_ptls := ptls; s_tlnf := 0; s_buf := b; s_ext := c_ext0 cf; s_allowed := committed; s_whub := pid;
            s_pend := []; s_wait := [] |} in
       if pid <? lenN (s_aht s1) then (upd_aht s1 (firstn (N.to_nat pid) (s_aht s1)), ok0)
       else if lenN (s_aht s1) =? pid then (s1, ok0)
